@@ -72,6 +72,9 @@ def fam_functions():
     out.append(("fn_void_early", HEADER + "def fa(xa):\n    if xa < 0:\n        return\n    d1.Setting = xa\nwhile True:\n    fa(d0.Setting)\n    d1.On = 1\n    yield_()\n"))
     out.append(("fn_nested_effects", HEADER + "def fa(xa):\n    d1.Setting = xa\n    return xa + 1\ndef fb(xa):\n    vt = fa(xa)\n    d2.Setting = vt\n    return vt + fa(vt)\nwhile True:\n    d3.Setting = fb(d0.Setting)\n    yield_()\n"))
     out.append(("fn_diamond", HEADER + "def fbase(xa):\n    return xa + 1\ndef fleft(xa):\n    return fbase(xa) * 2\ndef fright(xa):\n    return fbase(xa) * 3\nwhile True:\n    d1.Setting = fleft(d0.Setting) + fright(d0.Setting)\n    yield_()\n"))
+    out.append(("fn_unused_param", HEADER + "def fa(xa, xb, xc):\n    return xa * 10 + xc\ndef fb(xa):\n    return fa(xa, 7, 3) + fa(2, xa, xa)\nwhile True:\n    d1.Setting = fb(d0.Setting) + fa(1, 2, d0.Setting)\n    yield_()\n"))
+    out.append(("fn_early_inner", HEADER + "def fa(xa):\n    return xa + 1\ndef fb(xa):\n    vt = fa(xa)\n    if vt > 1:\n        return vt\n    d2.Setting = vt\n    return fa(vt) * 2\nwhile True:\n    d1.Setting = fb(d0.Setting)\n    d3.Setting = fb(1)\n    yield_()\n"))
+    out.append(("fn_early_void_inner", HEADER + "def fa(xa):\n    d1.Setting = xa\ndef fb(xa):\n    if xa < 1:\n        return\n    fa(xa)\n    if xa > 1:\n        return\n    fa(xa + 5)\nwhile True:\n    fb(d0.Setting)\n    fb(d2.Setting)\n    yield_()\n"))
     out.append(("fn_uncalled", HEADER + "def fa(xa):\n    return xa + 1\ndef fnever(xa):\n    d3.Setting = xa\n    return 0\nwhile True:\n    d1.Setting = fa(d0.Setting)\n    yield_()\n"))
     return out
 
